@@ -483,6 +483,23 @@ def handle_oracle_hit(rep, prop, tag, case, desc, sig, shrink_fn=None):
     return True
 
 
+def judge(rep, prop, cases, oracle, tag="correspondence", shrink_fn=None):
+    """Two passes over the cases that were run: FIRST every case is judged by its oracle on the implementation's
+    transcript (a concrete failing input is what a violation should name), and only when no oracle objects is the first
+    model/implementation difference reported (no failing input found). True = the check should stop."""
+    for c in cases:
+        rep.count_case(c)
+        hit = oracle(c)
+        if hit:
+            if handle_oracle_hit(rep, prop, "".join(ch for ch in hit[1] if ch.isalnum() or ch in "-_."), c, hit[0], hit[1], shrink_fn=shrink_fn):
+                return True
+    for c in cases:
+        if oracle(c) is None and c.diff() is not None:
+            handle_diff(rep, prop, tag, c)
+            return True
+    return False
+
+
 def handle_diff(rep, prop, tag, case):
     """Model and implementation disagree but no oracle found a failing input."""
     rep.cov["disagreements_checked"] += 1
